@@ -271,6 +271,25 @@ theorem C07_K5_from_C04 (tr : Trace) (endT : Int) (hruns : ∀ x ∈ browses tr,
     K5 Cfg.paper tr endT = true :=
   Bridge.K5_of_cacheRuns tr endT hruns
 
+/-- **the `cache` clause of `Bridge.CacheRun` from finer hypotheses** (`Bridge.CacheRunFine`): the PTRs the link trace shows the
+host processing are, instant by instant, the datagrams of the history that carry a copy of the pointer record (`Bridge.scan`); at
+most one copy per datagram; the history is sorted in time; and **the periodic purge runs** — after any instant `x ≥ tb` there is a
+purge within one cleanup period.  The last one is the liveness K5's grace clause needs and the cache model does not state (a
+history without purges is a history of the model); the purge at the browser's creation covers expiries before it. -/
+theorem C07_K5_cache_clause (tr : Trace) (tb : Int) (b : Br) (h : Bridge.CacheRunFine tr tb b) : Bridge.CacheRun tr tb b :=
+  Bridge.CacheRun_of_fine tr tb b h
+
+/-- `Bridge.track` / `Bridge.scan` at work: a pointer record with TTL 120 s (stored with the 1125 s floor) learned at 1 s is held;
+a purge after its expiry, or a goodbye, ends its life; a purge before the expiry does not -/
+example :
+    let p : Rec := ⟨"_x._tcp.local.", 12, 1, false, 120, 0, .ptr "a._x._tcp.local."⟩
+    Bridge.track id p [.datagram 1000 [p]] = some (1000, 1125)
+    ∧ Bridge.track id p [.datagram 1000 [p], .purge 1125999] = some (1000, 1125)
+    ∧ Bridge.track id p [.datagram 1000 [p], .purge 1126000] = none
+    ∧ Bridge.track id p [.datagram 1000 [p], .datagram 3000 [{ p with ttl := 0 }]] = none
+    ∧ Bridge.scan id p [.datagram 1000 [p], .purge 1126000] = some (120, 1000, true)
+    ∧ Bridge.scan id p [.datagram 1000 [p], .datagram 3000 [{ p with ttl := 0 }]] = some (0, 3000, false) := by decide
+
 /-- the contracts that are still hypotheses once K1, K2, K6 (C08/C09 host machine), K3 (C10 scheduler) and K5 (C04 browser over
 the C05/C06 cache) are discharged -/
 structure C07_ContractsFromModels (lower : String → String) (tr : Trace) (endT : Int) : Prop where
